@@ -269,5 +269,5 @@ pub fn run(ctx: &Ctx) {
         vals.iter().map(move |v| FCase { fmt: fmt.clone(), v: *v })
     }, false, false);
     // (ii)+(iii) must-fail shapes and random format strings
-    ctx.run_prop(&Format, ctx.n(5_000_000, 50_000_000));
+    ctx.run_prop(&Format, ctx.n(5_000_000, 200_000_000));
 }
